@@ -48,6 +48,8 @@ M = {
  "c17-labels-writes-filter": ("services/grpc-subscriber.go", "\t\t\t\tsubUpdate.SetLabels(req.Subscription.Labels)\n", "\t\t\t\tsubUpdate.SetLabels(req.Subscription.Labels)\n\t\t\t\tif req.Subscription.Filter != \"\" {\n\t\t\t\t\tsubUpdate.SetMessageFilter(req.Subscription.Filter)\n\t\t\t\t}\n"),
  "c17-month31": ("internal/sqltypes/interval.go", "month = 30 * day", "month = 31 * day"),
  "c17-maxb-lost": ("actions/create-subscription.go", "\tif a.params.MaxBackoff > 0 {\n\t\tcreate = create.SetMaxBackoff(sqltypes.IntervalPtr(a.params.MaxBackoff))\n\t}\n", ""),
+ "f11-revert": ("actions/prune-deleted-topics.go", "sql.IsNull(t.C(subscription.FieldDeletedAt)),", "sql.IsNull(t.C(subscription.FieldDeletedAt)), sql.False(),"),
+ "f10-revert": ("actions/prune-deleted-topics.go", "\tif len(ids) != 0 {", "\tif len(ids) != 0 && false {"),
 }
 def main():
     name, checks = sys.argv[1], sys.argv[2].split(",")
